@@ -1072,6 +1072,17 @@ def lookahead_wiring(ctx, rules=("C04.f",)):
         from .common import cond_variant
         only_none = all(cond_variant(c, o) is not None and cond_variant(c, o)[1] == "None" and re.search(r"Pattern::lookahead\(&?\*?item@bb\d+\)$", S.fstr(cond_variant(c, o)[0])) is not None for c, o in ic)
         ob("mode:pattern-skipped-only-without-lookahead", only_none, "a pattern is passed over under %s" % [(S.fstr(c)[:60], o) for c, o in ic], cp.loc())
+    # a lookahead that does not compile fails the build: it is not passed over (`if let Ok(..)`, `.ok()`, `flat_map` over the
+    # Result) — the pattern would then match without its condition
+    n_err = 0
+    for p in paths:
+        for c in p.calls(r"CompiledLookahead::try_from_lookahead$"):
+            if variant_of(ex, p, c[4]) == "Err":
+                n_err += 1
+                ok = p.end is not None and p.end[0] == "return" and variant_of(ex, p, p.end[1]) == "Err"
+                ob("mode:lookahead-that-does-not-compile-fails-the-build", ok, "after a failed try_from_lookahead the path ends with %s" % (p.end[0] if p.end else None), cp.loc(c[1]))
+    for r in rules:
+        ctx.floor(r, "failing-lookahead paths of CompiledDfa::try_from_patterns", n_err, 1)
     for r in rules:
         ctx.floor(r, "add_lookahead calls on paths of CompiledDfa::try_from_patterns", n, 1)
     al = F.fn(r"CompiledDfa::add_lookahead$")
